@@ -56,6 +56,10 @@ lemma('kput_sanitized', [Part(ks, [s, a], Implies(And(J.sanitized_k(ks), J.sanit
                                                   J.sanitized_k(J.kput(s, a, ks))))], props=P18)
 lemma('lookup_sanitized', [Part(ks, [k], Implies(And(J.sanitized_k(ks), J.kmem(k, ks)),
                                                  J.sanitized(J.klookup(k, ks))))], props=P18)
+lemma('sanitized_eqdom',
+      [Part(a, [], Implies(J.sanitized(a), J.eqdom(a))),
+       Part(xs, [], Implies(J.sanitized_l(xs), J.eqdom_l(xs))),
+       Part(ks, [], Implies(J.sanitized_k(ks), J.eqdom_k(ks)))], props=P18)
 lemma('lookup_eqdom', [Part(ks, [k], Implies(And(J.eqdom_k(ks), J.kmem(k, ks)),
                                              J.eqdom(J.klookup(k, ks))))], props=P18)
 
